@@ -179,52 +179,111 @@ theorem C07_gen_connect_cells_2d_eq_model (cells : List GenFn.Cell2d) :
 /-- the `connect` calls of one cell, as the model lists a cell's `connections` (key ↦ cell) -/
 def asConn2 (l : List ((Int × Int) × (Int × Int))) : List (Key × Coord) := l.map fun (n, d) => ([d.1, d.2], [n.1, n.2])
 
-/-- **C07 about the code-derived text, 2-D grids**: running the generated `_connect_cells_2d` of the grid class and, for
-    every `(cell, offsets)` it hands on, the generated `_connect_single_cell_2d`, yields for the cell `(i, j)` exactly the
-    model's `gridConn` — the object of `C07_grid_connections`, `C07_grid_symmetric`, `C07_nbhd_spec`. -/
-theorem C07_grid_connections_generated_2d (h w : Nat) (hh : 0 < h) (hw : 0 < w) (torus : Bool) (i j : Int) :
-    (∀ k : GridKind, ∀ calls,
-      calls = (match k with
-        | .moore => GenFn.moore_connect_cells_2d ⟨[⟨(i, j)⟩]⟩
-        | .vn => GenFn.vn_connect_cells_2d ⟨[⟨(i, j)⟩]⟩
-        | .hex => GenFn.hex_connect_cells_2d ⟨[⟨(i, j)⟩]⟩) →
-      calls.flatMap (fun p => asConn2 (GenFn.connect_single_cell_2d ⟨((h : Int), (w : Int)), torus⟩ p.1 p.2)) =
-        gridConn k [h, w] torus [i, j]) := by
-  intro k calls hc
-  obtain ⟨h1, h2, h3⟩ := C07_gen_connect_cells_2d_eq_model [⟨(i, j)⟩]
-  have key : ∀ offs : List (Int × Int),
-      asConn2 (GenFn.connect_single_cell_2d ⟨((h : Int), (w : Int)), torus⟩ ⟨(i, j)⟩ offs) =
-        offs.filterMap fun (di, dj) => (connect2d h w torus i j di dj).map fun (ni, nj) => ([di, dj], [ni, nj]) := by
-    intro offs
-    rw [C07_gen_connect_single_cell_2d_eq_model h w hh hw, asConn2, List.map_filterMap]
-    congr 1
-    funext ⟨di, dj⟩
-    cases hcn : connect2d h w torus i j di dj <;> simp [hcn]
-  cases k <;> simp only [h1, h2, h3] at hc <;> subst hc <;> simp [key, gridConn]
+/-- `Grid._connect_cells` as generated (the dispatch): the 2-D path (tag 2) exactly for two axes, else the n-D path (tag 0) -/
+theorem C07_gen_connect_cells_eq_model (n : Int) :
+    GenFn.connect_cells ⟨n⟩ = [if n = 2 then 2 else 0] := by
+  unfold GenFn.connect_cells
+  by_cases h : n = 2
+  · subst h; simp
+  · have h' : ¬ (2 = n) := fun e => h e.symm
+    simp [h, h']
 
-/-- **the same for n-D grids** (any number of axes other than 2, where `Grid._connect_cells` takes the n-D path). -/
-theorem C07_grid_connections_generated_nd (dims : List Nat) (hpos : ∀ w ∈ dims, 0 < w) (h2 : dims.length ≠ 2)
-    (torus : Bool) (c : List Int) :
-    ((GenFn.moore_connect_cells_nd ⟨dims.map fun (w : Nat) => (w : Int), [⟨c⟩]⟩).flatMap fun p =>
-        (GenFn.connect_single_cell_nd ⟨dims.map fun (w : Nat) => (w : Int), torus⟩ p.1 p.2).map fun (n, d) => (d, n)) =
-      gridConn .moore dims torus c ∧
-    ((GenFn.vn_connect_cells_nd ⟨dims.map fun (w : Nat) => (w : Int), [⟨c⟩]⟩).flatMap fun p =>
-        (GenFn.connect_single_cell_nd ⟨dims.map fun (w : Nat) => (w : Int), torus⟩ p.1 p.2).map fun (n, d) => (d, n)) =
-      gridConn .vn dims torus c := by
-  have key : ∀ offs : List (List Int),
-      ((GenFn.connect_single_cell_nd ⟨dims.map fun (w : Nat) => (w : Int), torus⟩ ⟨c⟩ offs).map fun (n, d) => (d, n)) =
-        offs.filterMap fun d => (connectNd dims torus c d).map fun n => (d, n) := by
-    intro offs
-    rw [C07_gen_connect_single_cell_nd_eq_model dims hpos, List.map_filterMap]
-    congr 1
-    funext d
-    cases hcn : connectNd dims torus c d <;> simp [hcn]
-  have hg : ∀ k, gridConn k dims torus c =
-      (offsetsNd k dims.length).filterMap fun d => (connectNd dims torus c d).map fun n => (d, n) := by
-    intro k
-    unfold gridConn
-    split
-    · simp at h2
-    · rfl
-  rw [C07_gen_moore_connect_cells_nd_eq_model, C07_gen_vn_connect_cells_nd_eq_model]
-  simp [key, hg, offsetsNd]
+/-- the whole of `Grid._connect_cells()` RUN FROM THE GENERATED PIECES for a grid of class `k` over `cells` (`all_cells`):
+    the generated dispatch `_connect_cells` says which path is taken (tag 2 / 0, nothing assumed about it); on that path
+    the class's generated `_connect_cells_2d` / `_connect_cells_nd` hands every cell its offsets; for every `(cell,
+    offsets)` handed on, the generated `_connect_single_cell_2d` / `_nd` makes the `connect` calls.  Result: per cell, in
+    `all_cells` order, its coordinate and its connections (key ↦ neighbour).  `HexGrid._connect_cells_nd` raises
+    `NotImplementedError` (not translated): no cell is connected, `[]`; the theorem below is for two-axis hex grids. -/
+def runConnectCells (k : GridKind) (dims : List Nat) (torus : Bool) (cells : List Coord) : List (Coord × List (Key × Coord)) :=
+  (GenFn.connect_cells ⟨(dims.length : Int)⟩).flatMap fun tag =>
+    if tag = 2 then
+      let g2 : GenFn.Grid2d := ⟨(((dims.getD 0 0 : Nat) : Int), ((dims.getD 1 0 : Nat) : Int)), torus⟩
+      let cs : List GenFn.Cell2d := cells.map fun c => ⟨(c.getD 0 0, c.getD 1 0)⟩
+      (match k with
+        | .moore => GenFn.moore_connect_cells_2d ⟨cs⟩
+        | .vn => GenFn.vn_connect_cells_2d ⟨cs⟩
+        | .hex => GenFn.hex_connect_cells_2d ⟨cs⟩).map fun (p : GenFn.Cell2d × List (Int × Int)) =>
+          ([p.1.coordinate.1, p.1.coordinate.2], asConn2 (GenFn.connect_single_cell_2d g2 p.1 p.2))
+    else
+      let di : List Int := dims.map fun (w : Nat) => (w : Int)
+      let cs : List GenFn.CellNd := cells.map fun c => ⟨c⟩
+      (match k with
+        | .moore => GenFn.moore_connect_cells_nd ⟨di, cs⟩
+        | .vn => GenFn.vn_connect_cells_nd ⟨di, cs⟩
+        | .hex => []).map fun (p : GenFn.CellNd × List (List Int)) =>
+          (p.1.coordinate, (GenFn.connect_single_cell_nd ⟨di, torus⟩ p.1 p.2).map fun (n, d) => (d, n))
+
+theorem conn2_key (h w : Nat) (hh : 0 < h) (hw : 0 < w) (torus : Bool) (i j : Int) (offs : List (Int × Int)) :
+    asConn2 (GenFn.connect_single_cell_2d ⟨((h : Int), (w : Int)), torus⟩ ⟨(i, j)⟩ offs) =
+      offs.filterMap fun (di, dj) => (connect2d h w torus i j di dj).map fun (ni, nj) => ([di, dj], [ni, nj]) := by
+  rw [C07_gen_connect_single_cell_2d_eq_model h w hh hw, asConn2, List.map_filterMap]
+  congr 1
+  funext ⟨di, dj⟩
+  cases hcn : connect2d h w torus i j di dj <;> simp [hcn]
+
+theorem connNd_key (dims : List Nat) (hpos : ∀ w ∈ dims, 0 < w) (torus : Bool) (c : List Int) (offs : List (List Int)) :
+    ((GenFn.connect_single_cell_nd ⟨dims.map fun (w : Nat) => (w : Int), torus⟩ ⟨c⟩ offs).map fun (n, d) => (d, n)) =
+      offs.filterMap fun d => (connectNd dims torus c d).map fun n => (d, n) := by
+  rw [C07_gen_connect_single_cell_nd_eq_model dims hpos, List.map_filterMap]
+  congr 1
+  funext d
+  cases hcn : connectNd dims torus c d <;> simp [hcn]
+
+/-- **C07 about the code-derived text, end to end** (dispatch included, every cell list): running the generated
+    `_connect_cells` → `_connect_cells_2d/_nd` of the grid class → `_connect_single_cell_2d/_nd` over ANY list of cells of
+    the grid's arity gives every cell exactly the model's `gridConn` — the object of `C07_grid_connections`,
+    `C07_grid_symmetric`, `C07_nbhd_spec`.  (`HexGrid` exists for two axes only.) -/
+theorem C07_grid_connections_generated (k : GridKind) (dims : List Nat) (hpos : ∀ w ∈ dims, 0 < w)
+    (hk : k = .hex → dims.length = 2) (torus : Bool) (cells : List Coord) (hc : ∀ c ∈ cells, c.length = dims.length) :
+    runConnectCells k dims torus cells = cells.map fun c => (c, gridConn k dims torus c) := by
+  unfold runConnectCells
+  rw [C07_gen_connect_cells_eq_model]
+  by_cases h2 : dims.length = 2
+  · match dims, h2 with
+    | [h, w], _ =>
+      have hh : 0 < h := hpos h (by simp)
+      have hw : 0 < w := hpos w (by simp)
+      obtain ⟨h1, h2', h3⟩ := C07_gen_connect_cells_2d_eq_model (cells.map fun c => (⟨(c.getD 0 0, c.getD 1 0)⟩ : GenFn.Cell2d))
+      have hcell : ∀ c ∈ cells, ∃ i j, c = [i, j] := by
+        intro c hm
+        have := hc c hm
+        match c, this with
+        | [i, j], _ => exact ⟨i, j, rfl⟩
+      cases k <;> simp only [h1, h2', h3, List.length_cons, List.length_nil, Nat.zero_add, Nat.reduceAdd, Int.cast_ofNat_Int,
+          if_true, List.flatMap_cons, List.flatMap_nil, List.append_nil, List.map_map, List.getD_cons_zero,
+          List.getD_cons_succ] <;>
+        (apply List.map_congr_left
+         intro c hm
+         obtain ⟨i, j, rfl⟩ := hcell c hm
+         simp [conn2_key h w hh hw, gridConn])
+  · have hn : ((dims.length : Nat) : Int) ≠ 2 := by omega
+    have hg : ∀ k c, gridConn k dims torus c =
+        (offsetsNd k dims.length).filterMap fun d => (connectNd dims torus c d).map fun n => (d, n) := by
+      intro k c
+      unfold gridConn
+      split
+      · simp at h2
+      · rfl
+    cases k with
+    | hex => exact absurd (hk rfl) h2
+    | moore =>
+      simp only [hn, if_false, List.flatMap_cons, List.flatMap_nil, List.append_nil,
+        C07_gen_moore_connect_cells_nd_eq_model, List.map_map]
+      apply List.map_congr_left
+      intro c _
+      simp [connNd_key dims hpos, hg, offsetsNd]
+    | vn =>
+      simp only [hn, if_false, List.flatMap_cons, List.flatMap_nil, List.append_nil,
+        C07_gen_vn_connect_cells_nd_eq_model, List.map_map]
+      apply List.map_congr_left
+      intro c _
+      simp [connNd_key dims hpos, hg, offsetsNd]
+
+/-- … in particular over the grid's own cells `product(*(range(d) for d in dimensions))` (`allCoords`), in that order -/
+theorem C07_grid_connections_generated_all (k : GridKind) (dims : List Nat) (hpos : ∀ w ∈ dims, 0 < w)
+    (hk : k = .hex → dims.length = 2) (torus : Bool) :
+    runConnectCells k dims torus (allCoords dims) = (allCoords dims).map fun c => (c, gridConn k dims torus c) :=
+  C07_grid_connections_generated k dims hpos hk torus (allCoords dims)
+    (fun c h => ((mem_allCoords dims c).mp h).length_eq)
+
+end Mesa.Cells
